@@ -46,6 +46,10 @@ def compare_with_reference(run, rule, construct, func, code_states, ref_states, 
         cset = condset(cs)
         matches = [rs for rs in ref_states if condset(rs) <= cset and rs.status == cs.status]
         if not matches:
+            # the code may split the cases differently (nested ifs for an if/elif chain): a reference path also covers this code path when each of
+            # its conditions is implied by the code path's -- it is one of them, or a disjunction one of whose members is
+            matches = [rs for rs in ref_states if rs.status == cs.status and all(_implied(r, cs.conds) for r in rs.conds)]
+        if not matches:
             run.bad(rule, construct, loc(func), "%s: the path under [%s] (ends in %s) has no counterpart in the reference %s"
                     % (func.qual, cond_text(cs.conds), cs.status, what), stmt="path:" + cond_text(cs.conds))
             continue
@@ -77,6 +81,28 @@ def compare_with_reference(run, rule, construct, func, code_states, ref_states, 
             run.ok(rule, construct + " path[" + cond_text(rs.conds)[:80] + "]",
                    "post-state of %s equals the %s on this path" % (", ".join(variables), what), loc(func))
     return n_ok
+
+
+def _implied(r, conds):
+    from .vn import conjuncts
+    if any(r == c for c in conds):
+        return True
+    a = r.single_atom() if isinstance(r, T.Poly) else None
+    if a is not None and a[0] == "app" and a[1] in ("nonneg", "nonzero") and len(a[2]) == 1:
+        x = T.dec(a[2][0])
+        if isinstance(x, T.Poly):
+            nx = T.neg(x)
+            have = lambda name, t: any(c == T.app(name, t) for c in conds)
+            if a[1] == "nonneg" and (have("zero", x) or have("zero", nx) or have("pos", x)):
+                return True      # d == 0 or d > 0 gives d >= 0
+            if a[1] == "nonzero" and (have("pos", x) or have("pos", nx)):
+                return True      # d > 0 or d < 0 gives d != 0
+    if a is not None and a[0] == "app" and a[1] == "or":
+        for d in a[2]:
+            dd = T.dec(d)
+            if isinstance(dd, T.Poly) and all(_implied(x, conds) for x in conjuncts(dd)):
+                return True
+    return False
 
 
 def _tuple_eq(a, b):
